@@ -3,7 +3,8 @@
 # usage: tools/seedsweep.sh [pattern]     e.g. tools/seedsweep.sh C07
 cd "$(dirname "$0")/.."
 export GOFLAGS=-mod=mod GOPROXY=off GOSUMDB=off GOTOOLCHAIN=local
-for d in seeded/C*${1:-}*/; do
+if [ -n "${1:-}" ] && [ -d "seeded/$1" ]; then LIST="seeded/$1/"; else LIST=$(ls -d seeded/C*/ | grep -- "${1:-}"); fi
+for d in $LIST; do
   name=$(basename $d); id=${name%%-*}
   # a seed that is reported by another property's check names it in meta.json ("sweep_check")
   alt=$(python3 -c "import json;print(json.load(open('$d/meta.json')).get('sweep_check',''))" 2>/dev/null); [ -n "$alt" ] && id=$alt
